@@ -28,7 +28,10 @@ def make_ds(ctx):
                        "i": np.array(sorted(rng.randrange(0, 30) for _ in range(n)), dtype="int64"),
                        "f": np.array([rng.random() for _ in range(n)], dtype="float64"),
                        "s": pd.Series([rng.choice(["a", "b", "c"]) for _ in range(n)], dtype=object),
-                       "c": pd.Categorical([rng.choice(["x", "y"]) for _ in range(n)])})
+                       "c": pd.Categorical([rng.choice(["x", "y"]) for _ in range(n)]),
+                       # columns whose statistics need a converted-type conversion before they can be compared
+                       "u": np.array([2 ** 31 + 7 * k for k in range(n)], dtype="uint32"),
+                       "t": pd.to_datetime("2020-01-01") + pd.to_timedelta(np.arange(n), unit="D")})
     path = os.path.join(ctx.workdir("c20"), "ds.parq")
     fastparquet.write(path, df, row_group_offsets=list(range(0, n, 10)), stats=True, write_index=False)
     return path, df
@@ -76,6 +79,8 @@ OPS = {
     "to_pandas": lambda pf: pf.to_pandas(),
     "to_pandas_cols": lambda pf: pf.to_pandas(columns=["f", "rid"]),
     "to_pandas_filter": lambda pf: pf.to_pandas(filters=[("i", ">", 10)]),
+    "to_pandas_filter_u": lambda pf: pf.to_pandas(filters=[("u", ">", 100)], columns=["rid", "u"]),
+    "to_pandas_filter_t": lambda pf: pf.to_pandas(filters=[("t", ">=", np.datetime64("2020-01-15"))], columns=["rid", "t"]),
     "to_pandas_cat": lambda pf: pf.to_pandas(columns=["c", "rid"], categories=["c"]),
     "slice": lambda pf: pf[1:4].to_pandas(),
     "pick": lambda pf: pf[2].to_pandas(columns=["rid", "s"]),
@@ -87,6 +92,172 @@ OPS = {
 }
 DERIVING = {"slice", "pick", "iter", "head"}
 MEMO_OK = ("converted_min", "converted_max")
+
+
+MUTATORS = {"append", "extend", "update", "pop", "popitem", "setdefault", "insert", "remove", "clear", "sort", "reverse", "add",
+            "discard", "__setitem__", "__delitem__", "__setattr__", "_set_attrs", "setattr", "delattr"}
+_STORE_LINES = {}
+
+
+def store_lines(filename):
+    """line numbers (first line of the statement) of statements that can write into an existing object: stores to an
+    attribute or subscript, `del`, calls of mutating methods / setattr"""
+    import ast
+    if filename in _STORE_LINES:
+        return _STORE_LINES[filename]
+    out = set()
+    try:
+        tree = ast.parse(open(filename).read())
+    except Exception:  # noqa
+        _STORE_LINES[filename] = None       # unknown: treat every line as a store
+        return None
+    for node in ast.walk(tree):
+        if isinstance(node, ast.stmt) and not isinstance(node, (ast.FunctionDef, ast.ClassDef, ast.If, ast.For, ast.While, ast.With, ast.Try)):
+            hit = False
+            for sub in ast.walk(node):
+                if isinstance(sub, (ast.Attribute, ast.Subscript)) and isinstance(sub.ctx, (ast.Store, ast.Del)):
+                    hit = True
+                elif isinstance(sub, ast.Call):
+                    f = sub.func
+                    if (isinstance(f, ast.Attribute) and f.attr in MUTATORS) or (isinstance(f, ast.Name) and f.id in MUTATORS):
+                        hit = True
+            if hit:
+                out.add(node.lineno)
+    _STORE_LINES[filename] = out
+    return out
+
+
+def trace_changes(fn, shared, pkgdir):
+    """Run fn() under a line tracer and record every CHANGE of the frozen shared state as it becomes visible.  The state is
+    re-examined after every statement of fastparquet's Python files that can store into an existing object (see
+    store_lines) and at the end.  Returns (result, [(event_index, file, line, paths)]); event indices count ALL line/return
+    events in fastparquet's files, so they can be used by run_paused."""
+    last = [freeze(shared)]
+    changes, idx = [], [0]
+    pending = {}
+
+    def look(fn_, lineno):
+        cur = freeze(shared)
+        if cur != last[0]:
+            changes.append((idx[0], os.path.basename(fn_), lineno, diff_state(last[0], cur)[:6]))
+            last[0] = cur
+
+    def tracer(frame, event, arg):
+        fn_ = frame.f_code.co_filename
+        if not fn_.startswith(pkgdir):
+            return None
+        if event in ("line", "return"):
+            idx[0] += 1
+            key = id(frame)
+            if pending.get(key):
+                look(fn_, frame.f_lineno)
+            if event == "line":
+                sl = store_lines(fn_)
+                pending[key] = sl is None or frame.f_lineno in sl
+            else:
+                pending.pop(key, None)
+        return tracer
+    sys.settrace(tracer)
+    try:
+        out = fn()
+    finally:
+        sys.settrace(None)
+    idx[0] += 1
+    look("<end>", 0)
+    return out, changes
+
+
+def run_paused(fn_a, pause_at, pkgdir, while_paused):
+    """Forced schedule: run fn_a in a thread, stop it at line event number `pause_at` (inside fastparquet's Python files),
+    run `while_paused()` in the calling thread, then let fn_a finish.  Returns (result_a | exception, result of while_paused)."""
+    reached, go = threading.Event(), threading.Event()
+    box = {}
+
+    def tracer_factory():
+        idx = [0]
+
+        def tracer(frame, event, arg):
+            if not frame.f_code.co_filename.startswith(pkgdir):
+                return None
+            if event in ("line", "return"):
+                idx[0] += 1
+                if idx[0] == pause_at:
+                    reached.set()
+                    go.wait(20)
+            return tracer
+        return tracer
+
+    def body():
+        sys.settrace(tracer_factory())
+        try:
+            box["a"] = ("ok", fn_a())
+        except Exception as e:  # noqa
+            box["a"] = ("exc", canon_err(e) + " " + str(e)[:80])
+        finally:
+            sys.settrace(None)
+            reached.set()
+    t = threading.Thread(target=body)
+    t.start()
+    reached.wait(20)
+    try:
+        mid = ("ok", while_paused())
+    except Exception as e:  # noqa
+        mid = ("exc", canon_err(e) + " " + str(e)[:80])
+    go.set()
+    t.join(30)
+    return box.get("a"), mid
+
+
+def run_two_paused(fn_a, k1, fn_b, k2, pkgdir):
+    """Forced schedule with two preemptions: A runs to its line event k1 and stops; B runs to its line event k2 and stops;
+    A finishes; B finishes.  Returns (result_a, result_b)."""
+    evs = {n: (threading.Event(), threading.Event()) for n in "ab"}
+    box = {}
+
+    def mk(name, fn, k):
+        reached, go = evs[name]
+
+        def tracer_factory():
+            idx = [0]
+
+            def tracer(frame, event, arg):
+                if not frame.f_code.co_filename.startswith(pkgdir):
+                    return None
+                if event in ("line", "return"):
+                    idx[0] += 1
+                    if idx[0] == k:
+                        reached.set()
+                        go.wait(20)
+                return tracer
+            return tracer
+
+        def body():
+            sys.settrace(tracer_factory())
+            try:
+                box[name] = ("ok", fn())
+            except Exception as e:  # noqa
+                box[name] = ("exc", canon_err(e) + " " + str(e)[:80])
+            finally:
+                sys.settrace(None)
+                reached.set()
+        return threading.Thread(target=body)
+    ta, tb = mk("a", fn_a, k1), mk("b", fn_b, k2)
+    ta.start()
+    evs["a"][0].wait(20)
+    tb.start()
+    evs["b"][0].wait(20)
+    evs["a"][1].set()
+    ta.join(30)
+    evs["b"][1].set()
+    tb.join(30)
+    return box.get("a"), box.get("b")
+
+
+def shared_state(pf):
+    """what threads using one handle share: the metadata tree and the handle's own cached attributes"""
+    extra = {k: v for k, v in vars(pf).items() if k not in ("fmd", "fs", "open", "remove", "mkdirs", "_schema", "schema", "helper")
+             and not callable(v)}
+    return {"fmd": pf.fmd, "handle": {k: repr(v)[:200] for k, v in extra.items()}}
 
 
 def run(ctx, report):
@@ -115,6 +286,61 @@ def run(ctx, report):
         if unexpected:
             # the model says: read-only operations write only memo keys; deriving operations leave the parent's state EQUAL
             report.corr_break("sched.writeset", {"op": name, "model": "memo keys only", "real": unexpected[:6], "explained_by_known": False})
+    # ---- 1b. TRANSIENT write sets: the model's steps are atomic publications - every path of the shared state changes at
+    # most once during an operation (absent -> final value) and only memo / cache paths change.  A path that changes twice, or
+    # a non-memo path that changes at all (even if restored), is a state other threads can observe half-way: the
+    # correspondence with the model is broken and a forced schedule (pause there, run another operation) looks for the failure.
+    pkgdir = os.path.dirname(fastparquet.__file__)
+    pkgdir = os.path.realpath(pkgdir) if not os.path.islink(os.path.join(pkgdir, "api.py")) else pkgdir
+    seq0 = {}
+    for name, op in OPS.items():
+        try:
+            seq0[name] = op(fastparquet.ParquetFile(path))
+        except Exception:
+            seq0[name] = None
+    for name, op in OPS.items():
+        pf = fastparquet.ParquetFile(path)
+        try:
+            _, changes = trace_changes(lambda: op(pf), shared_state(pf), pkgdir)
+        except Exception as e:  # noqa
+            report.notes.append(f"trace of {name} failed: {canon_err(e)} {str(e)[:60]}")
+            continue
+        report.stream("sched.transient")
+        report.count("traced:" + name)
+        seen, suspicious = {}, []
+        for (k, fl, ln, paths) in changes:
+            for pth in paths:
+                memo = any(m in pth for m in MEMO_OK) or pth.startswith("fmd[\'handle\']") or "['handle']" in pth
+                seen[pth] = seen.get(pth, 0) + 1
+                if not memo or seen[pth] > 1:
+                    suspicious.append((k, fl, ln, pth, "non-memo shared state written" if not memo else "memo written twice"))
+        report.case(("transient", name, len(changes)), nontrivial=True)
+        if suspicious:
+            k, fl, ln, pth, why = suspicious[0]
+            rec = {"check": "transient", "op": name, "at": f"{fl}:{ln}", "path": pth, "why": why}
+            report.corr_break("sched.transient", {**rec, "model": "every shared path is published at most once, memo keys only",
+                                                  "real": [list(x[1:]) for x in suspicious[:4]], "explained_by_known": False})
+            # forced schedule: stop the operation exactly where the half-written state is visible, run every other operation
+            for other, op2 in OPS.items():
+                if seq0.get(other) is None:
+                    continue
+                shared = fastparquet.ParquetFile(path)
+                ra, rb = run_paused(lambda: op(shared), k, pkgdir, lambda: op2(shared))
+                bad = []
+                if rb[0] == "exc":
+                    bad.append(f"{other} failed while {name} was paused at {fl}:{ln}: {rb[1]}")
+                elif diff_frames(seq0[other].reset_index(drop=True), rb[1].reset_index(drop=True)):
+                    bad.append(f"{other} returned a different result than alone while {name} was paused at {fl}:{ln} ({pth} half-written): "
+                               + diff_frames(seq0[other].reset_index(drop=True), rb[1].reset_index(drop=True))[0])
+                if ra is None or ra[0] == "exc":
+                    bad.append(f"{name} failed after {other} ran in its pause: {ra[1] if ra else 'no result'}")
+                elif seq0.get(name) is not None and diff_frames(seq0[name].reset_index(drop=True), ra[1].reset_index(drop=True)):
+                    bad.append(f"{name} returned a different result than alone after {other} ran in its pause")
+                report.evaluations += 1
+                if bad:
+                    report.violation({**rec, "schedule": f"{name} paused at line event {k} ({fl}:{ln}); {other} runs to completion; {name} resumes",
+                                      "what": "; ".join(bad)[:400], "sig": "forced:" + name})
+                    break
     # ---- 2. concurrent search
     seq = {}
     pf = fastparquet.ParquetFile(path)
@@ -192,6 +418,46 @@ def run(ctx, report):
                 writer.make_part_file(f, ch, fmd.schema, fmd=fmd)
                 return hashlib.sha1(f.getvalue()).hexdigest()
             seq_h = [write_part(c) for c in chunks]
+            # transient write set of the part-file writer on the SHARED metadata object: it must not be written at all
+            try:
+                _, wch = trace_changes(lambda: write_part(chunks[0]), {"fmd": fmd}, pkgdir)
+            except Exception as e:  # noqa
+                wch = []
+                report.notes.append("trace of make_part_file failed: " + canon_err(e))
+            report.stream("sched.transient")
+            report.count("traced:make_part_file")
+            report.case(("transient", "make_part_file", len(wch)), nontrivial=True)
+            if wch:
+                k, fl, ln, paths = wch[0]
+                rec = {"check": "transient", "op": "make_part_file", "at": f"{fl}:{ln}", "path": paths[0] if paths else "?",
+                       "why": "the shared FileMetaData is written while a part file is produced"}
+                report.corr_break("sched.transient", {**rec, "model": "part-file writers only read the shared metadata",
+                                                      "real": [list(x[1:]) for x in wch[:4]], "explained_by_known": False})
+                ra, rb = run_paused(lambda: write_part(chunks[0]), k, pkgdir, lambda: write_part(chunks[1]))
+                report.evaluations += 1
+                got = (ra[1] if ra and ra[0] == "ok" else ra, rb[1] if rb[0] == "ok" else rb)
+                if got == (seq_h[0], seq_h[1]):
+                    # two preemptions: A stops inside its window, B stops inside its own, A finishes, B finishes
+                    pts = sorted({c[0] for c in wch} | {c[0] - 1 for c in wch} | {c[0] + 1 for c in wch})[:8]
+                    for k1 in pts:
+                        for k2 in pts:
+                            ra, rb = run_two_paused(lambda: write_part(chunks[0]), k1, lambda: write_part(chunks[1]), k2, pkgdir)
+                            report.evaluations += 1
+                            got = (ra[1] if ra and ra[0] == "ok" else ra, rb[1] if rb and rb[0] == "ok" else rb)
+                            if got != (seq_h[0], seq_h[1]):
+                                k, fl, ln = k1, fl, ln
+                                rec["two_preemptions"] = [k1, k2]
+                                rec["schedule2"] = (f"writer of part 0 runs to its line event {k1} and stops; writer of part 1 runs to its line "
+                                                    f"event {k2} and stops; writer 0 finishes; writer 1 finishes")
+                                break
+                        if got != (seq_h[0], seq_h[1]):
+                            break
+                if got != (seq_h[0], seq_h[1]):
+                    report.violation({**rec, "schedule": rec.get("schedule2") or f"writer of part 0 paused at line event {k} ({fl}:{ln}); writer of "
+                                                         "part 1 runs to completion; writer 0 resumes",
+                                      "what": "part files written under this schedule differ from those written one after another "
+                                              f"(part 0 {'same' if got[0] == seq_h[0] else 'DIFFERS'}, part 1 {'same' if got[1] == seq_h[1] else 'DIFFERS'})",
+                                      "sig": "forced:make_part_file"})
             for _ in range(3 if ctx.quick else 20):
                 out = [None] * len(chunks)
 
